@@ -28,7 +28,8 @@ type ImportLine struct {
 var importPkgs = []string{"java.util", "java.io", "org.ext.model", "org.ext.svc", "com.lib", "com.lib.sub"}
 var importNames = []string{"Widget", "Gadget", "Sprocket", "Lever", "Valve", "Gear", "Bolt", "Rivet", "Flange", "Piston", "Crank", "Shaft", "Pulley", "Spring", "Washer", "Gasket", "Écran", "Ωmega", "Ünit", "Ñandu"}
 var roles = []string{"field", "param", "local", "generic", "annotation", "new", "static-receiver", "catch", "throws", "extends", "implements", "return",
-	"static-field", "enum-constant", "method-ref", "nested-type", "static-chain", "cast", "instanceof", "array", "class-literal"}
+	"static-field", "enum-constant", "method-ref", "nested-type", "static-chain", "cast", "instanceof", "array", "class-literal",
+	"multi-catch", "generic-bound", "wildcard-bound", "try-resource", "ctor-ref", "annotation-arg", "array-new", "foreach-type", "lambda-body", "field-annotation", "param-annotation"}
 
 // GenImportProject draws 1..maxFiles files in a small directory tree.
 func GenImportProject(t *tape.Tape, maxFiles int) []ImportFile {
@@ -124,11 +125,12 @@ func genImportFile(t *tape.Tape, cls string, pkg string) ImportFile {
 			}
 			if isIface {
 				switch role {
-				case "field", "local", "new", "static-receiver", "catch", "static-field", "enum-constant", "method-ref", "nested-type", "static-chain", "cast", "instanceof", "array", "class-literal":
+				case "field", "local", "new", "static-receiver", "catch", "static-field", "enum-constant", "method-ref", "nested-type", "static-chain", "cast", "instanceof", "array", "class-literal",
+					"multi-catch", "generic-bound", "wildcard-bound", "try-resource", "ctor-ref", "annotation-arg", "array-new", "foreach-type", "lambda-body", "field-annotation", "param-annotation":
 					role = "param"
 				}
 			}
-			if role == "catch" || role == "throws" {
+			if role == "catch" || role == "throws" || role == "multi-catch" {
 				q += "Exception"
 				name += "Exception"
 			}
@@ -199,6 +201,15 @@ func genImportFile(t *tape.Tape, cls string, pkg string) ImportFile {
 	for i, f := range by("field") {
 		add(fmt.Sprintf("    private %s field%d;", f, i))
 	}
+	for i, a := range by("field-annotation") {
+		if !isIface {
+			add(fmt.Sprintf("    @%s", a))
+			add(fmt.Sprintf("    private String annotated%d;", i))
+		}
+	}
+	for i, g := range by("wildcard-bound") {
+		add(fmt.Sprintf("    private java.util.List<? extends %s> bounded%d;", g, i))
+	}
 	for i, g := range by("generic") {
 		if isIface {
 			add(fmt.Sprintf("    java.util.List<%s> list%d();", g, i))
@@ -216,7 +227,20 @@ func genImportFile(t *tape.Tape, cls string, pkg string) ImportFile {
 	for i, p := range by("param") {
 		ps = append(ps, fmt.Sprintf("%s p%d", p, i))
 	}
-	sig := "    " + ret + " work(" + strings.Join(ps, ", ") + ")"
+	for i, p := range by("param-annotation") {
+		ps = append(ps, fmt.Sprintf("@%s String q%d", p, i))
+	}
+	generics := ""
+	if gb := by("generic-bound"); len(gb) > 0 {
+		generics = "<T extends " + gb[0] + "> "
+		for _, extra := range gb[1:] {
+			ps = append(ps, extra+" extraBound")
+		}
+	}
+	for _, a := range by("annotation-arg") {
+		add(fmt.Sprintf("    @SuppressWarnings(value = %s.class)", a))
+	}
+	sig := "    " + generics + ret + " work(" + strings.Join(ps, ", ") + ")"
 	if th := by("throws"); len(th) > 0 {
 		sig += " throws " + strings.Join(th, ", ")
 	}
@@ -232,6 +256,32 @@ func genImportFile(t *tape.Tape, cls string, pkg string) ImportFile {
 		}
 		for _, s := range by("static-receiver") {
 			add(fmt.Sprintf("        %s.create();", s))
+		}
+		if mc := by("multi-catch"); len(mc) > 0 {
+			add("        try {")
+			add("            helper();")
+			add("        } catch (" + strings.Join(mc, " | ") + " e) {")
+			add("            helper();")
+			add("        }")
+		}
+		for i, s := range by("try-resource") {
+			add(fmt.Sprintf("        try (%s res%d = null) {", s, i))
+			add("            helper();")
+			add("        }")
+		}
+		for i, s := range by("ctor-ref") {
+			add(fmt.Sprintf("        java.util.function.Supplier<Object> sup%d = %s::new;", i, s))
+		}
+		for i, s := range by("array-new") {
+			add(fmt.Sprintf("        Object arrNew%d = new %s[3];", i, s))
+		}
+		for i, s := range by("foreach-type") {
+			add(fmt.Sprintf("        for (%s each%d : java.util.Collections.<%s>emptyList()) {", s, i, s))
+			add("            helper();")
+			add("        }")
+		}
+		for i, s := range by("lambda-body") {
+			add(fmt.Sprintf("        Runnable lam%d = () -> { %s inLambda = null; };", i, s))
 		}
 		for i, s := range by("static-field") {
 			add(fmt.Sprintf("        int k%d = %s.MAX_SIZE;", i, s))
